@@ -151,7 +151,7 @@ func (ds *Describer) d1(v ssa.Value, depth int) *VD {
 		return &VD{Kind: "param", Name: x.Name()}
 	case *ssa.FreeVar:
 		// resolve to the binding in the parent if possible
-		if b := freeVarBinding(x); b != nil {
+		if b := FreeVarBinding(x); b != nil {
 			inner := ds.d(b, depth+1)
 			// a captured variable is an address (alloc) in the parent; keep its name
 			return inner
@@ -286,7 +286,7 @@ func fieldName(t types.Type, idx int) string {
 }
 
 // freeVarBinding finds the value bound to a free variable at the (single) MakeClosure of its function.
-func freeVarBinding(fv *ssa.FreeVar) ssa.Value {
+func FreeVarBinding(fv *ssa.FreeVar) ssa.Value {
 	fn := fv.Parent()
 	par := fn.Parent()
 	if par == nil {
